@@ -64,6 +64,7 @@ type pathState struct {
 	steps  int64
 	events []string
 	covers map[string]bool
+	pcSet  map[*Term]bool
 	// outcome
 	ended     string // "", "ok", "assume", "unsupported", ...
 	endMsg    string
@@ -87,6 +88,15 @@ func (i *interpreter) addPC(c *Term) {
 		return
 	}
 	i.path.pc = append(i.path.pc, c)
+	if i.path.pcSet == nil {
+		i.path.pcSet = map[*Term]bool{}
+	}
+	i.path.pcSet[c] = true
+	// conjunctions: their conjuncts are known too
+	if c.op == "and" {
+		i.path.pcSet[c.args[0]] = true
+		i.path.pcSet[c.args[1]] = true
+	}
 	i.solver.assert(c)
 	if i.path.model != nil {
 		if evalTerm(c, i.path.model, map[int]uint64{}) != 1 {
@@ -102,6 +112,12 @@ func (i *interpreter) feasible(c *Term) (bool, map[string]uint64) {
 		return true, i.path.model
 	}
 	if c.op == "false" {
+		return false, nil
+	}
+	if i.path.pcSet[c] {
+		return true, i.path.model
+	}
+	if i.path.pcSet[i.tc.Not(c)] {
 		return false, nil
 	}
 	if m := i.path.model; m != nil {
